@@ -13,6 +13,7 @@ import (
 	"sort"
 	"strings"
 	"sync"
+	"sync/atomic"
 	"time"
 )
 
@@ -128,6 +129,11 @@ func runWorkers(cases []*Case, timeout time.Duration) {
 		ch <- c
 	}
 	close(ch)
+	// circuit breaker: when the code under test hangs or dies on a large share of the cases (a scanner that
+	// loops on every path parameter, say), the first few dozen witnesses are enough; the rest is skipped so that
+	// the run ends and reports them instead of running into the overall time limit
+	var bad int64
+	const badLimit = 40
 	var wg sync.WaitGroup
 	for i := 0; i < n; i++ {
 		wg.Add(1)
@@ -141,6 +147,10 @@ func runWorkers(cases []*Case, timeout time.Duration) {
 				}
 			}()
 			for c := range ch {
+				if atomic.LoadInt64(&bad) >= badLimit {
+					c.GoOut = "SKIPPED"
+					continue
+				}
 				if w == nil {
 					var err error
 					w, err = startWorker()
@@ -169,6 +179,7 @@ func runWorkers(cases []*Case, timeout time.Duration) {
 						w.kill()
 						c.GoOut = "FATAL " + crashSummary(w.stderr.String())
 						w = nil
+						atomic.AddInt64(&bad, 1)
 						continue
 					}
 					var wr workerResult
@@ -190,6 +201,7 @@ func runWorkers(cases []*Case, timeout time.Duration) {
 					w.kill()
 					w = nil
 					c.GoOut = "TIMEOUT"
+					atomic.AddInt64(&bad, 1)
 				}
 			}
 		}()
@@ -424,6 +436,18 @@ func caseDisagreement(c *Case) Disagreement {
 func correspond(op string, cases []*Case, rep *Report, timeout time.Duration) {
 	def := ops[op]
 	runWorkers(cases, timeout)
+	{
+		var kept []*Case
+		for _, c := range cases {
+			if c.GoOut != "SKIPPED" {
+				kept = append(kept, c)
+			}
+		}
+		if len(kept) < len(cases) {
+			rep.Notes = append(rep.Notes, fmt.Sprintf("op %s: %d of %d cases skipped after %d timeouts / process deaths", op, len(cases)-len(kept), len(cases), 40))
+			cases = kept
+		}
+	}
 	pending := cases
 	if def.noModel {
 		pending = nil
